@@ -1009,6 +1009,22 @@ func callBuiltin(caller *frame, callpos token.Pos, fn *ssa.Builtin, args []value
 		}
 		return nil
 
+	case "clear": // clear(map) / clear(slice)
+		switch x := args[0].(type) {
+		case *omap:
+			x.clear()
+		case []value:
+			if len(x) > 0 {
+				et := fn.Type().(*types.Signature).Params().At(0).Type().Underlying().(*types.Slice).Elem()
+				for i := range x {
+					x[i] = zero(et)
+				}
+			}
+		default:
+			panic(fmt.Sprintf("clear: illegal operand: %T", x))
+		}
+		return nil
+
 	case "print", "println": // print(any, ...)
 		ln := fn.Name() == "println"
 		var buf bytes.Buffer
